@@ -155,25 +155,51 @@ def c01_known_class(it):
     return None
 
 
-def c01(res, rng, tier, replay=None):
-    n = sizes(tier, 1200, 20000)
-    res.rule = ('structured random glob expressions (ExprGen: literals incl. non-ASCII and case pairs, escapes, classes, '
-                '? * $, alternations, repetitions with bounds, tree wildcards in every position, flags at gaps; '
-                'corpus/exprs.jsonl first) x per-glob paths sampled from the token tree, one-edit mutants and fixed short paths; '
-                'non-trivial = distinct (glob, path) pairs of globs that build; tie: token tree, regex text, is_match; '
-                'oracle: is_match of the implementation vs Spec.spec_match (documented language)')
-    if replay:
-        c = replay['case']
-        out = W.run_impl(['mm %s %s' % (hx(c['glob']), hx(c['path']))])
-        spec = W.run_model(['lang %s %s' % (hx(c['glob']), hx(c['path']))])
-        print('impl:', out[0], ' spec:', spec[0])
-        return 0 if bit(out[0]) == spec[0].split('\t')[-1] else 1
-    exprs = gen_exprs(rng, n)
+def biased_exprs(rng, n, bias, seeds=()):
+    g = G.ExprGen(rng, wild=0.03, maxdepth=4 if bias == 'deep' else 3)
+    if bias == 'flags':
+        g.flag = lambda: rng.choice(['(?i)', '(?-i)', '(?i)', '(?-i)', ''])
+    out, seen = [], set()
+    pool = {'flags': ['a', 'b', 'A', 'B', 'ab', 'k', 'K', 'x'], 'trees': None, 'classes': None, 'deep': None}[bias]
+    tries = 0
+    while len(out) < n and tries < 30 * n:
+        tries += 1
+        if bias == 'flags':
+            parts = []
+            for _ in range(rng.randint(2, 5)):
+                x = rng.random()
+                lit = rng.choice(pool)
+                a = lit if x < 0.45 else '{%s,%s}' % (g.flag() + rng.choice(pool), g.flag() + rng.choice(pool)) if x < 0.7 else \
+                    '<%s%s:1,2>' % (g.flag(), rng.choice(pool)) if x < 0.85 else rng.choice(['[ab]', '?', '*', '/'])
+                parts.append(g.flag() + a)
+            e = ''.join(parts)
+        elif bias == 'trees':
+            e = g.glob()
+            if '**' not in e:
+                continue
+        elif bias == 'classes':
+            e = g.glob()
+            if '[' not in e:
+                continue
+        else:
+            e = g.glob()
+            if e.count('{') + e.count('<') < 2:
+                continue
+        if seeds and rng.random() < 0.2:
+            sd = rng.choice(seeds)
+            e = rng.choice([sd + e, e + sd, sd])
+        if e not in seen and len(e) < 120:
+            seen.add(e)
+            out.append(e)
+    return out
+
+
+def c01_round(res, rng, exprs, kfs, tie=True):
     items = stage_globs(exprs)
-    note_shapes(res, items)
-    tie_bad = tie_fields(res, items, ['head', 'tree', 're'], 'C01 encoder')
+    if tie:
+        note_shapes(res, items)
+        tie_fields(res, items, ['head', 'tree', 're'], 'C01 encoder')
     built = stage_match(items, rng)
-    kfs = {k['class']: k for k in W.known_findings('C01')}
     for it in built:
         if it.imm is None:
             continue
@@ -182,7 +208,7 @@ def c01(res, rng, tier, replay=None):
             res.nontrivial.add((it.e, p))
         res.count('matches', sum(1 for r in it.imm if bit(r) == '1'))
         res.count('rejects', sum(1 for r in it.imm if bit(r) == '0'))
-        if it.mmm is not None:
+        if it.mmm is not None and tie:
             for p, a, b in zip(it.paths, it.imm, it.mmm):
                 if bit(a) != bit(b):
                     res.tie_fail('C01 is_match differs from the model regex', {'glob': it.e, 'path': p, 'impl': a, 'model': b})
@@ -200,6 +226,33 @@ def c01(res, rng, tier, replay=None):
                                     {'glob': it.e, 'path': p, 'impl_is_match': bit(a), 'spec': s, 'class': cls})
                 break
         res.sample({'glob': it.e, 'paths': it.paths[:4], 'impl': [bit(r) for r in it.imm[:4]]})
+
+
+def c01(res, rng, tier, replay=None):
+    n = sizes(tier, 1200, 20000)
+    res.rule = ('structured random glob expressions (ExprGen: literals incl. non-ASCII and case pairs, escapes, classes, '
+                '? * $, alternations, repetitions with bounds, tree wildcards in every position, flags at gaps; '
+                'corpus/exprs.jsonl first) x per-glob paths sampled from the token tree, one-edit mutants and fixed short paths; '
+                'non-trivial = distinct (glob, path) pairs of globs that build; tie: token tree, regex text, is_match; '
+                'oracle: is_match of the implementation vs Spec.spec_match (documented language)')
+    if replay:
+        c = replay['case']
+        out = W.run_impl(['mm %s %s' % (hx(c['glob']), hx(c['path']))])
+        spec = W.run_model(['lang %s %s' % (hx(c['glob']), hx(c['path']))])
+        print('impl:', out[0], ' spec:', spec[0])
+        return 0 if bit(out[0]) == spec[0].split('\t')[-1] else 1
+    exprs = gen_exprs(rng, n)
+    kfs = {k['class']: k for k in W.known_findings('C01')}
+    c01_round(res, rng, exprs, kfs)
+    if res.tie_failures and not res.oracle_failures:
+        # the tie is broken: directed search for a failing input around the disagreeing inputs, with the
+        # generator biased towards each feature in turn (flags at every gap, trees, classes, nesting)
+        seeds = [c.get('glob') for _, c in res.tie_failures if isinstance(c.get('glob'), str)][:60]
+        for bias in ('flags', 'trees', 'classes', 'deep'):
+            if res.oracle_failures:
+                break
+            c01_round(res, rng, biased_exprs(rng, 1200, bias, seeds), kfs, tie=False)
+            res.notes.append('directed search round: ' + bias)
     # the listed witnesses
     for cls, kf in kfs.items():
         w = kf['witness']
@@ -261,9 +314,29 @@ def c10(res, rng, tier, replay=None):
     res.rule = ('ExprGen globs (see C01) x sampled paths; non-trivial = distinct (glob, canonical matched path with >= 1 component '
                 'that agrees with has_root); tie: depth() of implementation vs model (exact variance); oracle: component count of every '
                 'such matched path lies within the depth variance the implementation reports')
-    items, built = prepare(res, rng, n)
-    tie_fields(res, items, ['depth'], 'C10 depth()')
+    # crafted cells of the termination conjunction table: branches that are open / closed at either end, adjacent
+    forms = ['{a,b/c}', '{a/,b/c/}', '{/a,/b/c}', '{/a/,/b/c/}', '{a,b/c/}', '{a/,/b}', '<a/:1,2>', '</a:1,2>', '<a/b:1,2>', '{a/**,b}', '{**/a,b}',
+             '<a/:0,2>', '{a,b}', '<a:1,2>']
+    glue = ['', 'x', '/', 'x/', '/x', '/x/', '/**/', '*']
+    crafted = []
+    for x in forms:
+        for y in forms:
+            for gl in glue:
+                crafted.append(x + gl + y)
+    rng.shuffle(crafted)
+    crafted = crafted[:sizes(tier, 500, len(crafted))]
+    exprs = list(dict.fromkeys(gen_exprs(rng, n) + crafted))
+    items = stage_globs(exprs)
+    note_shapes(res, items)
+    built = stage_match(items, rng)
+    bad = tie_fields(res, items, ['depth'], 'C10 depth()')
     kfs = {k['class']: k for k in W.known_findings('C10')}
+    if bad:
+        # directed search: many more paths for exactly the globs whose reported depth differs from the model
+        extra = [it for it in bad if it.ihead == 'ok' and it.tree is not None][:150]
+        more = stage_match(stage_globs([it.e for it in extra]), rng, (60, 20))
+        built = more + built
+        res.notes.append('directed search: %d globs with a differing depth re-sampled with 80 paths each' % len(more))
     for it in built:
         d = it.if_.get('depth', '!')
         if d == '!':
@@ -1127,6 +1200,8 @@ def c08(res, rng, tier, replay=None):
         lead = rng.choice(['', '', '/', '/**/' if k == 0 else '/'])
         post = rng.choice(['', g.glob(1, sub=True), '**', '*', '**/' + g.component(1), g.component(1)])
         sep = '/' if pre and post and not post.startswith('/') else ''
+        if sep and rng.random() < 0.25:
+            sep = ''        # variant text directly after the invariant run, without a separator in between
         e = lead + pre + sep + post
         exprs.append(e)
     exprs = list(dict.fromkeys(exprs))
@@ -1259,6 +1334,13 @@ def c17(res, rng, tier, replay=None):
             e = e[:i] + rng.choice(multi) + e[i:]
         if rng.random() < 0.1:
             e = e + rng.choice(['(?i)', '\\', '愛\\愛', '(?-i)', '[', '{a,', '<a:'])
+        if rng.random() < 0.15 and '/' in e:
+            # double a boundary (adjacent boundary rule errors of every shape, also at the very end)
+            idxs = [i for i, c in enumerate(e) if c == '/']
+            i = rng.choice(idxs)
+            e = e[:i] + rng.choice(['//', '/**//', '//**/', '/**/**/', '**//']) + e[i + 1:]
+            if rng.random() < 0.4:
+                e = e[:i + 8]
         if e not in seen and len(e) < 120:
             seen.add(e)
             exprs.append(e)
